@@ -39,7 +39,9 @@ def check_simulation_result(ins, outs, env, acc):
             vals = arr if rtype == "probability" else arr * np.exp(1j * (0.3 + arr))
             case = {**base_case, "values": vlabel, "result_type": rtype}
             acc.tick("executions"); acc.tick("transitions")
-            r = SimulationResult(vals.copy(), rtype, inputs=[S(list(i)) for i in ins], outputs=[S(list(o)) for o in outs])
+            given = vals.copy()
+            r = SimulationResult(given, rtype, inputs=[S(list(i)) for i in ins], outputs=[S(list(o)) for o in outs])
+            given[:] = -7          # the caller's array is the caller's: overwriting it afterwards must not reach the result
             if [tuple(s.s) for s in r.inputs] != list(ins) or [tuple(s.s) for s in r.outputs] != list(outs):
                 acc.violation("input_output_order", case, None)
                 continue
@@ -198,6 +200,27 @@ def check_sampling_result(items, env, acc):
         acc.nontriv("SR", tuple(items))
 
 
+def check_real_amplitudes(env, acc):
+    """A result declared as amplitudes is refused whatever the dtype of its numbers (a real orthogonal transform
+    has real amplitudes; integers 0/1 are amplitudes of a permutation)."""
+    S = lw.State
+    ins = [(1, 0), (0, 1)]
+    outs = [(1, 0), (0, 1)]
+    for label, arr in (("float", np.array([[0.6, 0.8], [0.8, -0.6]])), ("int", np.array([[0, 1], [1, 0]])),
+                       ("complex_with_zero_imag", np.array([[0.6 + 0j, 0.8], [0.8, -0.6]]))):
+        r = SimulationResult(arr, "probability_amplitude", inputs=[S(list(i)) for i in ins], outputs=[S(list(o)) for o in outs])
+        for kind in ("threshold", "parity"):
+            for inv in (False, True):
+                acc.tick("executions"); acc.tick("transitions")
+                try:
+                    (r.apply_threshold_mapping if kind == "threshold" else r.apply_parity_mapping)(invert=inv)
+                    acc.violation("mapping_accepted_for_amplitudes", {"scenario": "real_amplitudes", "values": label,
+                                                                      "mapping": kind, "invert": inv, "seed": env.seed}, None)
+                except ValueError:
+                    acc.tick("rejected_calls")
+        acc.state("real_amplitudes", label)
+
+
 def check_repeated_inputs(env, acc):
     """The same input listed more than once (what Analyzer.analyze([a, b, a]) produces), with equal rows for equal
     inputs so that every access path is unambiguous: a mapping must keep every row, in the order of the input list."""
@@ -267,7 +290,7 @@ def run(tier, seed):
         return acc
 
     acc = kernel.pmap(shard_fn, kernel.interleave(jobs, kernel.NPROC * 4))
-    rep = kernel.Acc(); check_repeated_inputs(env, rep); acc.merge(rep)
+    rep = kernel.Acc(); check_repeated_inputs(env, rep); check_real_amplitudes(env, rep); acc.merge(rep)
     meta = {
         "rule": "SimulationResult: inputs = ordered selections of <= 2 and outputs = ordered selections of <= 3 distinct Fock "
                 "states (2 modes <= 3 photons; 3 modes <= 2 photons), two valuations (injective fingerprint so that any "
@@ -286,7 +309,9 @@ def replay(w, acc):
     from .c01 import _tup
     case = w["case"]
     env = Env(case.get("seed", 0))
-    if case.get("scenario") == "repeated_inputs":
+    if case.get("scenario") == "real_amplitudes":
+        check_real_amplitudes(env, acc)
+    elif case.get("scenario") == "repeated_inputs":
         check_repeated_inputs(env, acc)
     elif "counts" in case:
         check_sampling_result(tuple((tuple(k), v) for k, v in case["counts"]), env, acc)
